@@ -990,8 +990,24 @@ def render_partial(src: str, parts: dict[str, str], data: dict[str, Any], pol: s
 
 # ---------------------------------------------------------------- main
 
+_orig_coqc_cases = C._coqc_cases
+
+
+def _coqc_cases_retry(path: Any) -> tuple[int, str]:
+    """A coqc process killed from outside (memory pressure on a shared machine:
+    non-zero status, no output) is re-run; a real error is reported as is."""
+    rc, out = _orig_coqc_cases(path)
+    for _ in range(2):
+        if rc == 0 or out.strip():
+            break
+        time.sleep(2)
+        rc, out = _orig_coqc_cases(path)
+    return rc, out
+
+
 def main(chk: C.Check, build: C.Build) -> None:
     warnings.simplefilter("ignore")
+    C._coqc_cases = _coqc_cases_retry
     t0 = time.time()
     phase: dict[str, float] = {}
     proofs_ok = C.proof_stage(chk, build, NEEDED)
